@@ -289,4 +289,146 @@ theorem render_body_eq_model (R : Ro) (s : Surface) (win : Win) (scr : Screen) (
       simp [cellStep, hw, hw', Step.toRes, Surface.w]
       rw [Int.tmod_eq_emod_of_nonneg (Int.natCast_nonneg i)]
 
+/-! ### drawSoftwrap (RichText and Text)
+
+The row loop `for scanner.Scan() { var col uint16; if row >= Max.Height { return s, nil }; chars := …; for _, char := range chars
+{ if col >= Max.Width { break }; s.WriteCell(col, row, cell); col += uint16(char.Width) }; row += 1 }` executed on the lines the
+scanner yields, on the surface `NewSurface(size.Width, size.Height)` (Text: after `Fill(t.Style)`, every cell restyled
+`Cell{Character: char, Style: t.Style}`), is the model's `drawLines` — the function `Props/C14` (no panic, sizes) and
+`Props/C16Draw` (every emitted line on its row) are about.  `R.self` gives the results of the sibling methods
+(`cells`, `findContainerSize`: the latter is `*FindContainerSize_*_body_eq_model` above). -/
+
+theorem richDrawSoftwrap_body_eq_model (R : Ro) (c : Ctx) (cells : List Cell) (sw sh : UInt16) (scr : Screen)
+    (hcells : R.self "meth:cells" [.wid 0, .ctx c] = some (.ok (.cells cells)))
+    (hsize : R.self "meth:findContainerSize" [.wid 0, .cells cells, .ctx c] = some (.ok (.size sw sh)))
+    (hw : R.wrapW = c.maxW) :
+    (run R SurfaceBodies.richDrawSoftwrap SurfaceBodies.richDrawSoftwrapParams [.wid 0, .ctx c] scr).map (·.1)
+      = (match drawLines exactA softM c.maxW c.maxH R.soft 0 (newSurface exactA sw sh) with
+         | .ok s => .ok (.tup (.surf s) .nil)
+         | .error p => .error (.panic p)) := by
+  simp [SurfaceBodies.richDrawSoftwrap, SurfaceBodies.richDrawSoftwrapParams, hcells, hsize, hw]
+  rw [show scanStates false R.soft = (scanPairs R.soft).map (fun p => Val.scanner false p.2 p.1) from rfl]
+  rw [loopS_foldS R _ 7 (.scan "v4")
+    (fun (a : Val × UInt16 × Surface) => { ρ := [("r", .wid 0), ("v0", .ctx c), ("v1", .cells cells), ("v2", .size sw sh),
+        ("v3", .surf a.2.2), ("v4", a.1), ("v5", .u16 a.2.1)], scr := scr })
+    (fun p => Val.scanner false p.2 p.1) (rowStep id false c.maxW c.maxH)
+    ?_ (scanPairs R.soft) 0 (Val.scanner false R.soft [], 0, newSurface exactA sw sh)]
+  · rcases foldS_rowStep id false c.maxW c.maxH R.soft (Val.scanner false R.soft []) 0 (newSurface exactA sw sh) with
+      ⟨sc', row', s', h1 | h1, h2⟩ | ⟨p, h1, h2⟩
+    · rw [List.map_id] at h2; rw [h1, h2]; simp [Step.toRes]
+    · rw [List.map_id] at h2; rw [h1, h2]; simp [Step.toRes]
+    · rw [List.map_id] at h2; rw [h1, h2]; simp [Step.toRes]
+  · intro a b i
+    obtain ⟨sc, row, s⟩ := a
+    obtain ⟨line, rest⟩ := b
+    by_cases hg : c.maxH ≤ row
+    · simp [rowStep, hg, Step.toRes]
+    · simp [rowStep, hg, Step.toRes]
+      rw [loopS_foldS R _ 9 (.range "_" "v8")
+        (fun (a : UInt16 × Surface) => { ρ := [("r", .wid 0), ("v0", .ctx c), ("v1", .cells cells), ("v2", .size sw sh),
+            ("v3", .surf a.2), ("v4", Val.scanner false rest line), ("v5", .u16 row), ("v6", .u16 a.1), ("v7", .cells line)], scr := scr })
+        Val.cell (colStep c.maxW row) ?_ line 0 (0, s)]
+      · rcases foldS_colStep c.maxW row (tooWide c.maxW line) line 0 s with ⟨c', s', h1, h2⟩ | ⟨p, h1, h2⟩
+        · rw [h1, h2]; simp [Step.toRes, ofInt_one]
+        · rw [h1, h2]; simp [Step.toRes]
+      · intro a ch i
+        obtain ⟨col, s0⟩ := a
+        by_cases hc : c.maxW ≤ col
+        · simp [colStep, hc, Step.toRes]
+        · simp [colStep, hc, Step.toRes]
+          cases writeCell exactA s0 col row ch <;> simp [Step.toRes, u16]
+
+theorem textDrawSoftwrap_body_eq_model (R : Ro) (c : Ctx) (st : Nat) (sw sh : UInt16) (scr : Screen)
+    (hsty : R.fields "Style" = some (.sty st)) (hcont : R.fields "Content" = some .text)
+    (hsize : R.self "meth:findContainerSize" [.wid 0, .ctx c] = some (.ok (.size sw sh)))
+    (hw : R.wrapW = c.maxW) :
+    (run R SurfaceBodies.textDrawSoftwrap SurfaceBodies.textDrawSoftwrapParams [.wid 0, .ctx c] scr).map (·.1)
+      = (match drawLines exactA softM c.maxW c.maxH (R.soft.map (List.map (restyle st))) 0 (fillStyle (newSurface exactA sw sh) st) with
+         | .ok s => .ok (.tup (.surf s) .nil)
+         | .error p => .error (.panic p)) := by
+  simp [SurfaceBodies.textDrawSoftwrap, SurfaceBodies.textDrawSoftwrapParams, hsty, hcont, hsize, hw]
+  rw [show scanStates true R.soft = (scanPairs R.soft).map (fun p => Val.scanner true p.2 p.1) from rfl]
+  rw [loopS_foldS R _ 6 (.scan "v3")
+    (fun (a : Val × UInt16 × Surface) => { ρ := [("r", .wid 0), ("v0", .ctx c), ("v1", .size sw sh),
+        ("v2", .surf a.2.2), ("v3", a.1), ("v4", .u16 a.2.1)], scr := scr })
+    (fun p => Val.scanner true p.2 p.1) (rowStep (List.map (restyle st)) true c.maxW c.maxH)
+    ?_ (scanPairs R.soft) 0 (Val.scanner true R.soft [], 0, fillStyle (newSurface exactA sw sh) st)]
+  · rcases foldS_rowStep (List.map (restyle st)) true c.maxW c.maxH R.soft (Val.scanner true R.soft []) 0 (fillStyle (newSurface exactA sw sh) st) with
+      ⟨sc', row', s', h1 | h1, h2⟩ | ⟨p, h1, h2⟩
+    · rw [h1, h2]; simp [Step.toRes]
+    · rw [h1, h2]; simp [Step.toRes]
+    · rw [h1, h2]; simp [Step.toRes]
+  · intro a b i
+    obtain ⟨sc, row, s⟩ := a
+    obtain ⟨line, rest⟩ := b
+    by_cases hg : c.maxH ≤ row
+    · simp [rowStep, hg, Step.toRes]
+    · simp [rowStep, hg, Step.toRes]
+      rw [loopS_foldS R _ 8 (.range "_" "v7")
+        (fun (a : UInt16 × Surface) => { ρ := [("r", .wid 0), ("v0", .ctx c), ("v1", .size sw sh),
+            ("v2", .surf a.2), ("v3", Val.scanner true rest line), ("v4", .u16 row), ("v5", .u16 a.1), ("v6", .cells line)], scr := scr })
+        Val.cell (fun a ch => colStep c.maxW row a (restyle st ch)) ?_ line 0 (0, s), foldS_map]
+      · rcases foldS_colStep c.maxW row (tooWide c.maxW (line.map (restyle st))) (line.map (restyle st)) 0 s with ⟨c', s', h1, h2⟩ | ⟨p, h1, h2⟩
+        · rw [h1, h2]; simp [Step.toRes]
+        · rw [h1, h2]; simp [Step.toRes]
+      · intro a ch i
+        obtain ⟨col, s0⟩ := a
+        by_cases hc : c.maxW ≤ col
+        · simp [colStep, hc, Step.toRes]
+        · simp [colStep, hc, Step.toRes, hsty, restyle]
+          cases writeCell exactA s0 col row { g := ch.g, w := ch.w, st := st } <;> simp [Step.toRes, u16]
+
+/-- **RichText.drawSoftwrap = the model**: with `findContainerSize` returning what its own executed body returns
+(`richFindContainerSize_soft_body_eq_model`), the executed body of `RichText.drawSoftwrap` is `Layout.drawText` in the
+soft-wrap mode of the current source — the very function `Props.C14.size_le_max_src` and `Props.C16Draw` are about. -/
+theorem richDrawSoftwrap_is_drawText (R : Ro) (c : Ctx) (cells : List Cell) (scr : Screen)
+    (hcells : R.self "meth:cells" [.wid 0, .ctx c] = some (.ok (.cells cells)))
+    (hsize : R.self "meth:findContainerSize" [.wid 0, .cells cells, .ctx c]
+      = some (.ok (.size (findContainerSize true c R.soft).1 (findContainerSize true c R.soft).2)))
+    (hw : R.wrapW = c.maxW) :
+    (run R SurfaceBodies.richDrawSoftwrap SurfaceBodies.richDrawSoftwrapParams [.wid 0, .ctx c] scr).map (·.1)
+      = (match drawText exactA (richMode false) c R.soft with
+         | .ok s => .ok (.tup (.surf s) .nil)
+         | .error p => .error (.panic p)) := by
+  rw [richDrawSoftwrap_body_eq_model R c cells _ _ scr hcells hsize hw]
+  have h1 : (richMode false).sizeStrict = true := by decide
+  have h2 : (richMode false).sz = (.sizeW, .sizeH) := by decide
+  have h3 : (richMode false).drawStrict = true := by decide
+  have h4 : (richMode false).fill = none := rfl
+  simp only [drawText, h1, h2, h4, evalSz]
+  rw [drawLines_soft_congr softM (richMode false) rfl rfl (by rw [h3]; rfl)]
+
+/-- **Text.drawSoftwrap = the model** (`Layout.drawText` in Text's soft-wrap mode, on the restyled lines). -/
+theorem textDrawSoftwrap_is_drawText (R : Ro) (c : Ctx) (st : Nat) (scr : Screen)
+    (hsty : R.fields "Style" = some (.sty st)) (hcont : R.fields "Content" = some .text)
+    (hsize : R.self "meth:findContainerSize" [.wid 0, .ctx c]
+      = some (.ok (.size (findContainerSize true c (R.soft.map (List.map (restyle st)))).1
+                         (findContainerSize true c (R.soft.map (List.map (restyle st)))).2)))
+    (hw : R.wrapW = c.maxW) :
+    (run R SurfaceBodies.textDrawSoftwrap SurfaceBodies.textDrawSoftwrapParams [.wid 0, .ctx c] scr).map (·.1)
+      = (match drawText exactA (textMode false st) c (R.soft.map (List.map (restyle st))) with
+         | .ok s => .ok (.tup (.surf s) .nil)
+         | .error p => .error (.panic p)) := by
+  rw [textDrawSoftwrap_body_eq_model R c st _ _ scr hsty hcont hsize hw]
+  have h1 : (textMode false st).sizeStrict = true := by simp only [textMode]; decide
+  have h2 : (textMode false st).sz = (.sizeW, .sizeH) := by simp only [textMode]; decide
+  have h3 : (textMode false st).drawStrict = true := by simp only [textMode]; decide
+  have h4 : (textMode false st).fill = some st := rfl
+  simp only [drawText, h1, h2, h4, evalSz]
+  rw [drawLines_soft_congr softM (textMode false st) rfl rfl (by rw [h3]; rfl)]
+
+/-- restyling changes no width: `findContainerSize` of the restyled lines is that of the lines -/
+theorem findContainerSize_restyle (st : Nat) (c : Ctx) (lines : List (List Cell)) :
+    findContainerSize true c (lines.map (List.map (restyle st))) = findContainerSize true c lines := by
+  have hl : ∀ l : List Cell, lineWidth (l.map (restyle st)) = lineWidth l := by
+    intro l; induction l with
+    | nil => rfl
+    | cons ch r ih => simp [lineWidth, restyle, ih]
+  have : ∀ (ls : List (List Cell)) (w h : UInt16),
+      sizeLoop true c.maxW c.maxH (ls.map (List.map (restyle st))) w h = sizeLoop true c.maxW c.maxH ls w h := by
+    intro ls; induction ls with
+    | nil => intro w h; rfl
+    | cons l r ih => intro w h; simp only [List.map_cons, sizeLoop, hl, ih]
+  exact this lines 0 0
+
 end VaxisModel.Props.C14Body
